@@ -18,6 +18,10 @@ Open Scope N_scope.
 Definition elig_of (t : table) (net : N) : list entry :=
   match alookup net (t_dests t) with Some d => elig_list d | None => [] end.
 
+(* the destination id of a live prefix *)
+Definition id_of (t : table) (net : N) : option N :=
+  match alookup net (t_dests t) with Some d => Some (d_id d) | None => None end.
+
 (* the same read off Table::collect_loc_rib_paths *)
 Definition locrib_view (t : table) (net : N) : list entry :=
   match find (fun c => c_net c =? net) (loc_rib t None) with
@@ -57,6 +61,10 @@ Fixpoint consume {S} (app : S -> change -> S) (t : table) (s : S) (ops : list op
   | [] => (t, s)
   | o :: r => consume app (fst (fst (step t o))) (fold_left app (snd (fst (step t o))) s) r
   end.
+
+(* the table and the notifications one operation produces *)
+Definition step_t (t : table) (o : op) : table := fst (fst (step t o)).
+Definition step_cs (t : table) (o : op) : list change := snd (fst (step t o)).
 
 (* the allocator's own assumption (debug_assert in IdAllocator::alloc): fewer
    than 2^24 destinations in the shard whenever an operation starts *)
